@@ -390,10 +390,14 @@ def extractNewline : Event → Option Bytes
   | .newline v => some (if v.contains 13 then [13, 10] else [10])
   | _ => none
 
+def isComment : Event → Bool
+  | .comment _ _ => true
+  | _ => false
+
 /-- `ends_with_newline` -/
 def endsWithNewline (evs : List Event) (nl : Bytes) (dflt : Bool) : Bool :=
   if evs.isEmpty then dflt
-  else ((evs.reverse.takeWhile fun e => e.lossy.all isAsciiWs).any fun e => isInfix nl e.lossy)
+  else ((evs.reverse.takeWhile fun e => !isComment e && e.lossy.all isAsciiWs).any fun e => isInfix nl e.lossy)
 
 /-- `File::detect_newline_style` (Unix: the platform newline is LF) -/
 def detectNewline (f : File) : Bytes :=
